@@ -2,6 +2,8 @@ package main
 
 import (
 	"fmt"
+	"go/constant"
+	"go/token"
 	"go/types"
 	"net/http"
 	"strings"
@@ -278,6 +280,64 @@ func runC14(c *Ctx) {
 					return factEqString(ct, "application/x-www-form-urlencoded", true)(cond, branch) || factEqString(ct, "multipart/form-data", true)(cond, branch)
 				}
 				c.obI("R14.3", fm, "form-only-for-form-media-types", fk == "access_token" && guardedBy(fm, nil, isForm) && guardedBy(fm, h, noHeaderToken), "the form body is consulted only for the two form media types and only when no token was found before", "")
+				// nothing else decides whether the form body is consulted: every test that can steer past the form read is about
+				// the token found so far or about the content type (never the method, a length, a flag …)
+				{
+					ff := fm.Parent()
+					ctErr := vOrigins(oCall(1, "rt.ContentType"), oCall(2, "rt.ContentType"))
+					for _, b := range ff.Blocks {
+						iff, isIf := lastInstr(b).(*ssa.If)
+						if !isIf || len(b.Succs) != 2 || !reachableFrom(ff.Blocks[0], b) {
+							continue
+						}
+						r0 := b.Succs[0] == fm.Block() || reachableFrom(b.Succs[0], fm.Block())
+						r1 := b.Succs[1] == fm.Block() || reachableFrom(b.Succs[1], fm.Block())
+						if r0 == r1 {
+							continue
+						}
+						var condKnown func(cond ssa.Value, depth int) bool
+						condKnown = func(cond ssa.Value, depth int) bool {
+							if depth > 4 {
+								return false
+							}
+							if u, isU := cond.(*ssa.UnOp); isU && u.Op == token.NOT {
+								return condKnown(u.X, depth+1)
+							}
+							// a condition computed ahead of its test (`isForm := ct == a || ct == b`): every contribution is a known test or a constant
+							if phi, isPhi := cond.(*ssa.Phi); isPhi {
+								for _, e := range phi.Edges {
+									if k, isK := e.(*ssa.Const); isK && k.Value != nil && k.Value.Kind() == constant.Bool {
+										continue
+									}
+									if !condKnown(e, depth+1) {
+										return false
+									}
+								}
+								return true
+							}
+							for _, br := range []bool{true, false} {
+								if noHeaderToken(cond, br) || isForm(cond, br) || factNil(ctErr, true)(cond, br) || factNil(ctErr, false)(cond, br) {
+									return true
+								}
+								if prefixFound != nil && factBool(vIs(prefixFound), br)(cond, true) {
+									return true
+								}
+							}
+							return false
+						}
+						known := condKnown(iff.Cond, 0)
+						for _, br := range []bool{true, false} {
+							if noHeaderToken(iff.Cond, br) || isForm(iff.Cond, br) || factEqString(func(ssa.Value) bool { return true }, "", true)(iff.Cond, br) && isTokenEmpty(iff.Cond, br) ||
+								factNil(ctErr, true)(iff.Cond, br) || factNil(ctErr, false)(iff.Cond, br) {
+								known = true
+							}
+							if prefixFound != nil && factBool(vIs(prefixFound), br)(iff.Cond, true) {
+								known = true
+							}
+						}
+						c.obI("R14.3", iff, "form-consulted-whatever-else", known, "whether the form body is consulted depends only on the token found so far and on the content type being one of the two form media types: a bearer token in a form body is recovered for every method", "a test on something else can steer past the form read")
+					}
+				}
 				// the token tested right before the form read: every way it can be empty has gone through the query read
 				okPre, whyPre := false, "no `token == \"\"` test on a merged token value guards the form read"
 				for _, in := range instrs(f) {
@@ -311,21 +371,33 @@ func runC14(c *Ctx) {
 			}
 		}
 		// R14.1 / R14.2 returns
-		for _, r := range realReturns(f) {
-			r0 := resOf(r, 0)
+		for _, vr := range virtualReturns(f) {
+			r := vr.R
+			if len(vr.Res) < 3 {
+				continue
+			}
+			r0 := vr.Res[0]
 			if b, ok := constBool(r0); ok && !b {
-				g := noCred != nil && guardedBy(r, nil, noCred)
-				c.obI("R14.2", r, "not-applicable-only-without-credential", g && isNilConst(resOf(r, 1)) && isNilConst(resOf(r, 2)), "(false, nil, nil) is returned exactly when the request carries no such credential", "")
+				g := noCred != nil && vr.Guarded(noCred)
+				// (named results left at their zero values count as the nil results)
+				isZero := func(v ssa.Value) bool {
+					if isNilConst(v) {
+						return true
+					}
+					ok, _ := allOrigins(v, oNil(), func(o Origin) bool { al, isAl := o.V.(*ssa.Alloc); return isAl && al.Parent() == f })
+					return ok
+				}
+				c.obI("R14.2", r, "not-applicable-only-without-credential", g && isZero(vr.Res[1]) && isZero(vr.Res[2]), "(false, nil, nil) is returned exactly when the request carries no such credential", "")
 				continue
 			}
 			b, ok := constBool(r0)
 			c.obI("R14.2", r, "applies-otherwise", ok && b, "every other exit reports applies == true", "")
-			okP, bad := allOrigins(resOf(r, 1), oNil(), oIsValue(princ))
+			okP, bad := allOrigins(vr.Res[1], oNil(), oIsValue(princ))
 			c.obI("R14.1", r, "principal-is-callbacks", okP && princ != nil, "the principal returned is the application callback's — never the credential itself or another value", "origin "+describeOrigin(bad))
-			okE, _ := allOrigins(resOf(r, 2), oNil(), oIsValue(cerr))
+			okE, _ := allOrigins(vr.Res[2], oNil(), oIsValue(cerr))
 			c.obI("R14.1", r, "error-is-callbacks", okE, "the error returned is the callback's", "")
 			if noCred != nil {
-				c.obI("R14.2", r, "applies-only-with-credential", guardedBy(r, nil, negate(noCred)), "an applying exit is reached only when a credential was found", "")
+				c.obI("R14.2", r, "applies-only-with-credential", vr.Guarded(negate(noCred)), "an applying exit is reached only when a credential was found", "")
 			}
 		}
 		// event sequence for sibling agreement
